@@ -18,7 +18,7 @@ def _strip(rec):
 
 def _key(tr, v):
     c = tr["case"]
-    return "%s/%s/%s/%s" % (c["gen"], c["via"], c["cfg"], v["v"].split(":", 1)[-1])
+    return "%s/%s/%s/%s" % (c["gen"], c["via"], c["cfg"] if isinstance(c["cfg"], str) else "inline", v["v"].split(":", 1)[-1])
 
 
 def collect(chk):
@@ -35,7 +35,8 @@ def collect(chk):
         gen = "motifs" if stub.CONFIGS[cname]["custom"] else "fast"
         for jds in fam:
             try:
-                for rec, _w in stub.enumerate_leaves({"gen": gen, "via": "direct", "cfg": cname, "jds": jds}):
+                lcap = None if (thorough or cname != "c_hub_tri") else 12
+                for rec, _w in stub.enumerate_leaves({"gen": gen, "via": "direct", "cfg": cname, "jds": jds}, max_leaves=lcap):
                     traces.append(_strip(rec)); chk.rng_leaves += 1
                 # both construction paths and the network variant: first and a random leaf
                 for g, via in ((gen, "main"),) + ((("network", "direct"), ("network", "main")) if gen == "fast" else ()):
@@ -48,7 +49,7 @@ def collect(chk):
                 traces.append(_strip(stub.execute({"gen": gen, "via": "direct", "cfg": cname, "jds": jds,
                                                    "rng": ("seed", rng.randrange(1 << 30))})))
     chk.extra["mc_family_size"] = fam_total
-    chk.exhaustive["every RNG leaf of the direct path for all %d (configuration, jds) of the MC family N=3" % fam_total] = undecided == 0
+    chk.exhaustive["every RNG leaf of the direct path for all (configuration, jds) of the MC family N=3 (%d inputs; c_hub_tri capped at 12 leaves per input in the quick tier)" % fam_total] = undecided == 0
     if thorough:
         for cname in stub.MC_MIRROR:
             fam = stub.consistent_family(cname, 4, 2, 5)
@@ -67,6 +68,15 @@ def collect(chk):
         gens = ["motifs"] if cfg["custom"] else ["fast", "network"]
         traces.append(_strip(stub.execute({"gen": rng.choice(gens), "via": rng.choice(["direct", "main"]), "cfg": cname,
                                            "jds": jds, "rng": ("seed", rng.randrange(1 << 30))})))
+    # random motif configurations (any number of motifs / orbits / shapes, motif order independent of column order)
+    for i in range(4000 if thorough else 600):
+        custom = rng.random() < 0.6
+        cfg = stub.random_config(rng, custom)
+        jds = stub.random_jds(rng, cfg, rng.choice([1, 2, 4, 9, 25]), rng.choice([1, 2, 3]), zero_frac=rng.choice([0.0, 0.3]))
+        gens = ["motifs"] if custom else ["fast", "network", "motifs"]
+        g = rng.choice(gens)
+        traces.append(_strip(stub.execute({"gen": g, "via": rng.choice(["direct", "main"]), "cfg": cfg, "jds": jds,
+                                           "rng": ("seed", rng.randrange(1 << 30)), "as_custom": g == "motifs" and not custom})))
     # the custom generator also accepts single-orbit configurations written for the fast one
     for i in range(60 if not thorough else 400):
         cname = rng.choice(["f_edge_tri", "f_mix4", "f_k4_cyc5", "f_single_path"])
@@ -93,7 +103,7 @@ def run(chk, prop=None):
     for i in range(0, len(traces), B):
         chk.judge("StubMatchingTrace", "StubMatchingTrace.cfg", traces[i:i + B], label="%s batch %d" % (prop, i // B),
                   env={"PROPERTY": prop}, key_fn=_key)
-    chk.nontrivial = len({(t["case"]["cfg"], t["case"]["gen"], str(t["jds"]), str(t["calls"])) for t in traces if t["calls"]})
+    chk.nontrivial = len({(str(t["case"]["cfg"]), t["case"]["gen"], str(t["jds"]), str(t["calls"])) for t in traces if t["calls"]})
     chk.extra["rule"] = "one case = one execution of a generator (configuration, jds, RNG resolution); non-trivial = at least one motif emitted; distinct by (configuration, generator, jds, callback log)"
     chk.assumptions += ["build / naming callbacks are the recording closures of the harness (any callback is data to the generator)",
                         "shuffle randomness reaches the generator through random._inst._randbelow (oracle attachment)"]
